@@ -755,7 +755,7 @@ static int sbdf_read_valuearray_int(FILE* file, sbdf_valuearray** handle)
 				err = sbdf_obj_create(bytearray_vt, &buf, &packed_size, &(*handle)->object1);
 				free(buf);
 			}
-			else if (fseek(file, (long)packed_size, SEEK_CUR))
+			else if (sbdf_skip_bytes(file, (long)packed_size))
 			{
 				return SBDF_ERROR_IO;
 			}
